@@ -483,6 +483,56 @@ def r3_7(ctx, R):
     ctx.ob("R3.7", "<crate>", "unsafe-Send/Sync-impls", ok, "", str(sorted(us)))
 
 
+def r3_8(ctx, R):
+    ctx.rule("R3.8", "index within capacity: every construction of the bounded collection pairs a slot map and a waker "
+                     "list of the same capacity (slot-map ctor and waker-list ctor applied to the same parameter, or the "
+                     "waker list sized by the collected slot map's len()); the only indices handed to MARK are keys returned "
+                     "by INSERT, loop indices of 0..that capacity, or indices delivered by POP")
+    ctor = alloc_fn(ctx)
+    sm = R.slot_enum[1]
+    n = 0
+    for b in ctx.facts.fn_bodies():
+        fl = ctx.flow(b)
+        for rb, e in returned_exprs(ctx, b):
+            if not (e[0] == "agg" and len(e[2]) >= 2):
+                continue
+            tys = [ctx.facts.adts.get(e[1].rsplit("::", 1)[0], {}).get("variants", [{}])[0].get("fields", [])]
+            fields = {f["name"]: f["ty"] for f in tys[0]} if tys[0] else {}
+            smf = [k for k, v in fields.items() if v.startswith(sm + "<")]
+            wlf = [k for k, v in fields.items() if v == "waker_list::WakerList"]
+            if not (smf and wlf):
+                continue
+            n += 1
+            ops = dict(zip(e[3], e[2]))
+            t, w = ops[smf[0]], ops[wlf[0]]
+            ok = False
+            det = "%s / %s" % (expr_str(t), expr_str(w))
+            if w[0] == "call" and w[1] == ctor.path:
+                cap = w[2][0]
+                if t[0] == "call" and (t[1] or "").endswith("::new") and strip_refs(t[2][0]) == strip_refs(cap) and strip_refs(cap)[0] == "param":
+                    ok = True
+                elif cap[0] == "call" and (cap[1] or "").endswith("::len") and strip_refs(cap[2][0]) == t:
+                    ok = True
+            ctx.ob("R3.8", b, "slot-map-and-waker-list-same-capacity", ok, b.loc(rb), det)
+    ctx.floor("R3.8", "bounded-collection-constructions", n, 2)
+    mark = R.mark_fn
+    pops = {p.path for p in R.pop_fns}
+    ins = R.insert_fn
+    for b, ss in R.callers_of(mark):
+        fl = ctx.flow(b)
+        for bb, t, fn in ss:
+            idx = fl.operand_expr(t["args"][-1])
+            calls = [c[1] or "" for c in expr_calls(idx)]
+            src = None
+            if any(c == ins.path for c in calls):
+                src = "key returned by INSERT"
+            elif any("Range" in c and c.endswith("::next") for c in calls):
+                src = "loop index of a Range"
+            elif any(c in pops for c in calls) or any(d.path in calls for d in R.drain_fns):
+                src = "index delivered by POP/DRAIN"
+            ctx.ob("R3.8", b, "mark-index-source@%s" % _site_label(b, bb), src is not None, b.loc(bb), "%s: %s" % (src, expr_str(idx)))
+
+
 def run(ctx):
     R = roles(ctx)
     R.pop_fn, R.vt
@@ -506,3 +556,4 @@ def run(ctx):
     r3_5(ctx, R, lay)
     r3_6(ctx, R)
     r3_7(ctx, R)
+    r3_8(ctx, R)
